@@ -713,6 +713,16 @@ pub struct Not<I> {
     filter: FilterAny,
 }
 
+#[cfg(feature = "olson_sean_k_wax_verif")]
+impl<I> Not<I> {
+    /// Verification hook: texts of the exhaustive (tree discarding) and nonexhaustive (file
+    /// discarding) partition programs of the negation that this combinator has installed.
+    #[doc(hidden)]
+    pub fn verif_partition_texts(&self) -> (Option<String>, Option<String>) {
+        self.filter.verif_partition_texts()
+    }
+}
+
 impl<I> CancelWalk for Not<I>
 where
     I: CancelWalk,
